@@ -598,7 +598,7 @@ func (g *G) BuildUpTo(name string, d int, leaves, wrappers []Kind) *B {
 // deeper recipes and for the quick tier).
 var (
 	RepLeaves   = []Kind{LNew, LNewfUnsafe, LStd, LCtxCanceled, LErrno, LUserPlain, LUserIs, LUserNonComparable, LHandled, LHandledMsg, LJoin, LStdJoin1, LFmtMulti}
-	RepWrappers = []Kind{WWrap, WWrapf, WNewfW, WHint, WDomain, WTags, WMark, WSecondary, WGrpc, WIssueLink, WFmtSuffix, WUserFull, WUserPrefix, WPathError, WPkgMsg}
+	RepWrappers = []Kind{WWrap, WWrapf, WNewfW, WNewfWExtra, WHint, WDomain, WTags, WMark, WSecondary, WGrpc, WIssueLink, WFmtSuffix, WUserFull, WUserPrefix, WPathError, WPkgMsg}
 )
 
 // BuildTiered draws a depth in 1..d, a leaf, inner wrappers and an outermost
